@@ -343,6 +343,11 @@ def run_cases(prop, casefile, work, tag, timeout=3000):
     else:
         model_cmds = [([MODEL, prop, s], s + ".model") for s in shards]
     rcs = run_parallel(model_cmds, timeout, env)
+    # a model shard killed by a signal (the machine ran out of memory with 16 shards side by side) is
+    # run again, one at a time; its verdict is what the second run says
+    for i, ((argv, outp), rc) in enumerate(zip(model_cmds, rcs)):
+        if rc is not None and rc < 0:
+            rcs[i] = run_parallel([(argv, outp)], timeout, env)[0]
     for (argv, outp), rc in zip(model_cmds, rcs):
         if rc != 0:
             errors.append("model rc=%s on %s: %s" % (rc, os.path.basename(outp), open(outp + ".err").read()[-2000:]))
